@@ -86,7 +86,7 @@ fn build_tree() -> Tree {
     std::fs::write(tmp.0.join("secret"), b"secret").unwrap();
     let secret = id_of(&tmp.0.join("secret"));
     let mut top: BTreeMap<String, Node> = BTreeMap::new();
-    for name in ["a", "a.gz", "b", "c", "d.gz", "...", "..a", "a..", "....gz", ".gz"] {
+    for name in ["a", "a.gz", "a.gz.gz", "b", "b.gz.gz", "c", "d.gz", "...", "..a", "a..", "....gz", ".gz", "f.tar", "f.tar.gz", "f.tar.gz.gz"] {
         top.insert(name.into(), mk_file(&base.join(name)));
     }
     // a ".gz" that is a directory
@@ -255,7 +255,7 @@ fn run_dir(c: &DirCase, sink: &mut Sink) -> (Verdict, Option<u64>, Value) {
 }
 
 const SEGS: [&str; 9] = ["a", "sub", "..", ".", "...", "..a", "a..", "", "secret"];
-const EXTRA_SEGS: [&str; 8] = ["b", "c", "d", "e", "c.gz", "a.gz", "....gz", "nonexistent"];
+const EXTRA_SEGS: [&str; 16] = ["b", "c", "d", "e", "c.gz", "a.gz", "....gz", "nonexistent", "a.gz.gz", "b.gz", "b.gz.gz", "d.gz", "f.tar", "f.tar.gz", "f.tar.gz.gz", "e.gz"];
 
 fn paths(max_segs: usize) -> Vec<String> {
     let mut out: Vec<String> = vec![String::new()];
